@@ -11,8 +11,11 @@ import (
 	"regexp"
 
 	"github.com/alephium/wormhole-fork/node/pkg/processor"
+	"github.com/alephium/wormhole-fork/node/pkg/vaa"
 	"github.com/alephium/wormhole-fork/node/verifh/cm"
 	"github.com/alephium/wormhole-fork/node/verifh/ev"
+	"github.com/alephium/wormhole-fork/node/verifh/keys"
+	"github.com/alephium/wormhole-fork/node/verifh/proch"
 )
 
 func extract(path string, re *regexp.Regexp, varGroup, exprGroup int) (*cm.Expr, string) {
@@ -97,6 +100,91 @@ func main() {
 			r.Violation("quorum: "+bad, fmt.Sprintf("%+v", rw), rw)
 		}
 	}
-	r.Set("rule", "every n in 0..255 once; n>=1 judged (non-trivial), n=0 reported only; Go (tree), Go (explorer pin), Solidity and Ralph formulas extracted from the working tree's contract sources")
+	// ---- the node's USE of the threshold: "a VAA the node considers complete is accepted on chain".
+	// Explicit-state search over the real processor handlers (sets in any order, local observation, own
+	// loopback, observations by every key of both sets); every VAA the node broadcasts as complete or writes
+	// to its store is put to the contracts' own test: the number of its signatures that verify for distinct,
+	// ascending members of the guardian set it NAMES must reach the thresholds computed by the formulas
+	// extracted from Messages.sol and governance.ral for that set's size.
+	w := proch.NewWorld()
+	var e0 vaa.Address
+	e0[31] = 0x51
+	for n := 1; n <= 4; n++ {
+		for _, own := range []int{0, 1, n - 1} {
+			if own >= n || (own == 1 && n <= 2) {
+				continue
+			}
+			n, own := n, own
+			sets := [][]int{keys.Range(0, n), keys.Range(1, n+1)}
+			c := proch.Config{Name: fmt.Sprintf("node-use-n%d-own%d", n, own), Sets: sets, OwnKey: own,
+				Msgs: []proch.Msg{{Seq: 3, Payload: []byte{7}, Emitter: e0, Chain: 2, Target: 255, CL: 1}}}
+			x := &proch.Explorer{R: r, W: w, C: &c, Oracles: map[string]bool{}}
+			judge := func(kind string, b []byte, hist []proch.Event) {
+				d, err := proch.Decode(b)
+				if err != nil || int(d.SetIdx) >= len(sets) {
+					r.Violation("node use: "+kind+" VAA does not decode / names an unknown set", fmt.Sprint(err), hist)
+					return
+				}
+				set := keys.Addrs(sets[d.SetIdx]...)
+				valid, last := 0, -1
+				for _, sg := range d.Sigs {
+					a, ok := proch.Recover(d.Digest, sg.Sig[:])
+					if ok && int(sg.Idx) < len(set) && int(sg.Idx) > last && a == set[sg.Idx] {
+						valid++
+						last = int(sg.Idx)
+					}
+				}
+				sq, _ := sol.Eval(map[string]int64{solVar: int64(len(set))})
+				rq, _ := ral.Eval(map[string]int64{ralVar: int64(len(set))})
+				r.Add("node_use_vaas_judged", 1)
+				if int64(valid) < sq || int64(valid) < rq {
+					var pretty []string
+					for _, e := range hist {
+						pretty = append(pretty, e.String())
+					}
+					r.Violation("node use: a VAA the node considers complete ("+kind+") has fewer valid signatures of the set it names than the contracts' thresholds",
+						fmt.Sprintf("n=%d valid=%d solidity=%d ralph=%d history: %v", len(set), valid, sq, rq, pretty), proch.Replay{Config: c, History: hist, Pretty: pretty, Oracle: "C07-node-use"})
+				}
+			}
+			x.OnStep = func(in *proch.Inst, e proch.Event, out proch.Out, hist []proch.Event) {
+				for _, b := range out.VAAs {
+					judge("broadcast", b, hist)
+				}
+				for _, b := range in.Node().Store() {
+					judge("stored", b, hist)
+				}
+			}
+			menu := func(nd *proch.Node, m *proch.Model, hist []proch.Event) []proch.Event {
+				var evs []proch.Event
+				for si := range sets {
+					if si != m.Cur {
+						evs = append(evs, proch.Event{Kind: "set", Set: si})
+					}
+				}
+				if len(nd.Pending) < 2 {
+					evs = append(evs, proch.Event{Kind: "msg", M: 0})
+				}
+				for i := range nd.Pending {
+					evs = append(evs, proch.Event{Kind: "lb", LB: i})
+				}
+				for g := 0; g <= n; g++ {
+					evs = append(evs, proch.Event{Kind: "obs", G: g, D: 0})
+				}
+				return evs
+			}
+			depth := 7
+			if n >= 4 {
+				depth = 6
+			}
+			x.BFS(depth, menu, 400000, nil)
+			r.Add("states", x.States)
+			r.Add("transitions", x.Transitions)
+			r.Add("traces_validated_against_impl", x.Builds)
+			if n == 3 && own == 0 {
+				r.Sample(map[string]interface{}{"node_use_config": c.Name, "depth": depth, "states": x.States, "transitions": x.Transitions})
+			}
+		}
+	}
+	r.Set("rule", "every n in 0..255 once; n>=1 judged (non-trivial), n=0 reported only; Go (tree), Go (explorer pin), Solidity and Ralph formulas extracted from the working tree's contract sources; node use: explicit-state BFS (sets of 1..4, depth 6-7, state-key pruning) over the real processor with every complete VAA judged by the extracted contract thresholds")
 	r.Finish()
 }
